@@ -32,10 +32,11 @@ var receivers = []string{
 	"Sensitive", "Sensitive[String]", "Unit",
 	"Any", "Undef", "Default", "Scalar", "ScalarData", "Data", "RichData", "Collection", "Callable", "Iterable", "Iterator", "Runtime", "Object",
 	"Pcore::IntegerType", "Pcore::FloatType", "Pcore::StringType", "Pcore::ArrayType", "Pcore::HashType", "Pcore::TupleType", "Pcore::StructType",
-	"Pcore::EnumType", "Pcore::VariantType", "Pcore::OptionalType", "Pcore::PatternType", "Pcore::TypeType", "Pcore::InitType", "Pcore::CallableType",
+	"Pcore::EnumType", "Pcore::VariantType", "Pcore::OptionalType", "Pcore::PatternType", "Pcore::TypeType", "Pcore::Init", "Pcore::CallableType",
 	"Pcore::CollectionType", "Pcore::NotUndefType", "Pcore::SemVerType", "Pcore::TimespanType", "Pcore::TimestampType", "Pcore::RegexpType",
-	"Pcore::SensitiveType", "Pcore::IterableType", "Pcore::IteratorType", "Pcore::RuntimeType", "Pcore::LikeType", "Pcore::TypeReference",
-	"Pcore::TypeAliasType", "Pcore::ObjectType", "Pcore::BooleanType", "Pcore::UriType", "Pcore::AnyType", "Pcore::StructElement",
+	"Pcore::SensitiveType", "Pcore::IterableType", "Pcore::IteratorType", "Pcore::RuntimeType", "Pcore::Like", "Pcore::TypeReference",
+	"Pcore::TypeAlias", "Pcore::ObjectType", "Pcore::BooleanType", "Pcore::URIType", "Pcore::AnyType", "Pcore::StructElement",
+	"Pcore::BinaryType", "Pcore::NumericType", "Pcore::DefaultType", "Pcore::UndefType", "Pcore::UnitType", "Pcore::ScalarType", "Pcore::SemVerRangeType",
 	"Object[{name=>'My::Pt',attributes=>{x=>Integer,y=>{type=>Integer[0,5],value=>0}}}]",
 }
 
@@ -100,44 +101,51 @@ var ctorWitness = map[string][][]string{
 	"Sensitive":          {{wi(1)}, {ws("secret")}, {wu}, {wmk("Sensitive", ws("a"))}},
 	"Unit":               {{wi(1)}, {ws("a")}, {wu}},
 	"Init":               {{ws("3")}, {wi(3)}, {ws("7"), wi(8)}, {ws("ff")}, {wa(ws("ff"), wi(16))}, {wa(wi(1), wi(2))}, {wa(wa(wi(1), wi(2)))}, {ws("abc")}, {wa(wa(ws("a"), wi(1)))}, {ws("1.2.3")}, {ws("yes")}, {ws("a")}, {ws("c")}},
-	"Pcore::IntegerType": {{wi(0), wi(5)}, {wi(5), wi(0)}, {wd, wi(3)}, {wi(1)}, {ws("a")}, {wi(1), wi(2), wi(3)}, {wh(ws("from"), wi(1), ws("to"), wi(2))}, {wh(ws("from"), wi(3), ws("to"), wi(2))}, {wh()}, {wf(1.5), wi(2)}},
-	"Pcore::FloatType":   {{wf(0), wf(5)}, {wf(5), wf(0)}, {wd, wf(3)}, {wi(1)}, {ws("a")}, {wh(ws("from"), wf(1), ws("to"), wf(2))}, {wf(1), wf(2), wf(3)}},
-	"Pcore::StringType":  {{wi(2)}, {wi(1), wi(3)}, {ws("abc")}, {wt("Integer[2,3]")}, {wh(ws("size_type_or_value"), wt("Integer[1,2]"))}, {wi(3), wi(1)}, {wf(1)}, {wi(1), wi(2), wi(3)}, {wi(-1)}},
-	"Pcore::ArrayType": {{wt("Integer")}, {wt("Integer"), wi(1)}, {wt("Integer"), wi(1), wi(2)}, {wi(1), wi(2)}, {wt("Integer"), wt("Integer[1,2]")}, {wh(ws("element_type"), wt("String"), ws("size_type"), wt("Integer[0,3]"))},
+	"Pcore::IntegerType": {{wu, wi(3)}, {wi(2), wu}, {wu, wu}, {}, {wi(0), wi(5)}, {wi(5), wi(0)}, {wd, wi(3)}, {wi(1)}, {ws("a")}, {wi(1), wi(2), wi(3)}, {wh(ws("from"), wi(1), ws("to"), wi(2))}, {wh(ws("from"), wi(3), ws("to"), wi(2))}, {wh()}, {wf(1.5), wi(2)}},
+	"Pcore::FloatType":   {{wu, wf(3)}, {wf(1.5)}, {}, {wf(0), wf(5)}, {wf(5), wf(0)}, {wd, wf(3)}, {wi(1)}, {ws("a")}, {wh(ws("from"), wf(1), ws("to"), wf(2))}, {wf(1), wf(2), wf(3)}},
+	"Pcore::StringType":  {{wt("Integer[1,3]")}, {wu}, {}, {ws("")}, {wi(2)}, {wi(1), wi(3)}, {ws("abc")}, {wt("Integer[2,3]")}, {wh(ws("size_type_or_value"), wt("Integer[1,2]"))}, {wi(3), wi(1)}, {wf(1)}, {wi(1), wi(2), wi(3)}, {wi(-1)}},
+	"Pcore::ArrayType": {{wt("Integer"), wt("Integer[1,2]")}, {wt("String"), wt("Integer[0,0]")}, {wh(ws("element_type"), wt("String"))}, {}, {wt("Integer")}, {wt("Integer"), wi(1)}, {wt("Integer"), wi(1), wi(2)}, {wi(1), wi(2)}, {wt("Integer"), wt("Integer[1,2]")}, {wh(ws("element_type"), wt("String"), ws("size_type"), wt("Integer[0,3]"))},
 		{wt("Integer"), ws("a")}, {wi(2), wi(1)}, {wt("Integer"), wi(1), wi(2), wi(3)}, {ws("x")}, {wh(ws("size_type"), wi(1))}, {wt("Integer"), wd, wi(2)}, {wt("Integer"), wt("String")}},
-	"Pcore::HashType": {{wt("String"), wt("Integer")}, {wt("String"), wt("Integer"), wi(1)}, {wt("String"), wt("Integer"), wi(1), wi(2)}, {wt("String")}, {wi(1), wi(2)}, {wt("String"), wi(1)}, {wh(ws("key_type"), wt("String"), ws("value_type"), wt("Integer"))},
+	"Pcore::HashType": {{wt("String"), wt("Integer"), wt("Integer[1,2]")}, {wu, wu, wt("Integer[0,3]")}, {wh(ws("key_type"), wt("String"), ws("value_type"), wt("Integer"), ws("size_type"), wt("Integer[1,2]"))}, {wh(ws("key_type"), wu, ws("value_type"), wu)}, {}, {wt("String"), wt("Integer")}, {wt("String"), wt("Integer"), wi(1)}, {wt("String"), wt("Integer"), wi(1), wi(2)}, {wt("String")}, {wi(1), wi(2)}, {wt("String"), wi(1)}, {wh(ws("key_type"), wt("String"), ws("value_type"), wt("Integer"))},
 		{wt("String"), wt("Integer"), wt("Integer[1,2]")}, {wt("String"), wt("Integer"), ws("x")}, {wt("String"), wt("Integer"), wi(2), wi(1)}, {wh(ws("size_type"), wi(1))}, {wt("String"), wt("Integer"), wi(1), wi(2), wi(3)}},
-	"Pcore::TupleType": {{wt("Integer")}, {wt("Integer"), wt("String")}, {wt("Integer"), wi(1), wi(3)}, {wa(wt("Integer")), wi(3)}, {wa(wt("Integer")), wt("Integer[1,2]")}, {wa(wt("Integer"))}, {wi(1), wi(2)}, {wi(1)}, {wd},
+	"Pcore::TupleType": {{wa(wt("Integer"), wt("String"))}, {wa(wt("Integer")), wt("Integer[1,3]")}, {wa(), wt("Integer[0,0]")}, {wa()}, {wa(wt("Integer")), wt("Integer[0,0]")}, {wa(wt("Integer")), wu}, {wt("Integer")}, {wt("Integer"), wt("String")}, {wt("Integer"), wi(1), wi(3)}, {wa(wt("Integer")), wi(3)}, {wa(wt("Integer")), wt("Integer[1,2]")}, {wa(wt("Integer"))}, {wi(1), wi(2)}, {wi(1)}, {wd},
 		{wa(ws("x"))}, {wt("Integer"), ws("x")}, {wa(wt("Integer")), ws("x")}, {wh(ws("types"), wa(wt("Integer")))}, {wh(ws("types"), wa(wt("Integer")), ws("size_type"), wt("Integer[1,2]"))}, {wt("Integer"), wi(3), wi(1)}, {wa(), wi(0)}, {wa(wi(1), wi(2))}, {wa(wt("Integer"), wi(1))}},
-	"Pcore::StructType": {{wh(ws("a"), wt("Integer"))}, {wh(wt("Optional[a]"), wt("Integer"))}, {wh(wi(1), wt("Integer"))}, {wh(ws("a"), wi(1))}, {wh(ws(""), wt("Integer"))}, {wa(wmk("Pcore::StructElement", ws("a"), wt("Integer")))}, {wa(wi(1))}, {wi(1)}, {wh()},
+	"Pcore::StructType": {{wa(wmk("Pcore::StructElement", wt("Enum['a']"), wt("Integer")))}, {wa(wmk("Pcore::StructElement", wt("Optional['a']"), wt("Integer")), wmk("Pcore::StructElement", wt("Enum['b']"), wt("String")))}, {wa()}, {wa(wmk("Pcore::StructElement", wt("Enum['a']"), wt("Integer")), wmk("Pcore::StructElement", wt("Enum['a']"), wt("String")))}, {wh(ws("a"), wt("Integer"))}, {wh(wt("Optional[a]"), wt("Integer"))}, {wh(wi(1), wt("Integer"))}, {wh(ws("a"), wi(1))}, {wh(ws(""), wt("Integer"))}, {wa(wmk("Pcore::StructElement", ws("a"), wt("Integer")))}, {wa(wi(1))}, {wi(1)}, {wh()},
 		{wh(ws("elements"), wa())}, {wh(wt("String"), wt("Integer"))}, {wh(wt("NotUndef[a]"), wt("Integer"))}, {wh(wt("Optional[String]"), wt("Integer"))}},
-	"Pcore::StructElement": {{ws("a"), wt("Integer")}, {wt("Optional[a]"), wt("Integer")}, {ws(""), wt("Integer")}, {wi(1), wt("Integer")}, {ws("a"), wi(1)}, {ws("a")}, {wh(ws("key_type"), wt("String[a]")), wh(ws("value_type"), wt("Integer"))}, {wt("String"), wt("Integer")}},
-	"Pcore::EnumType":      {{ws("a"), ws("b")}, {wa(ws("a"), ws("b"))}, {wa(ws("a")), wtrue}, {ws("a"), wtrue}, {wi(1)}, {wa(wi(1))}, {wtrue}, {wh(ws("values"), wa(ws("a")))}, {wh(ws("values"), wa(ws("a")), ws("case_insensitive"), wtrue)}, {}, {wa(), wtrue}, {ws("a"), wi(1)}},
-	"Pcore::VariantType":   {{wt("Integer"), wt("String")}, {wa(wt("Integer"))}, {wi(1)}, {}, {wt("Integer")}, {wa(wi(1))}, {wh(ws("types"), wa(wt("Integer")))}, {wa(wt("Integer")), wt("String")}},
-	"Pcore::OptionalType":  {{wt("Integer")}, {ws("a")}, {wi(1)}, {}, {wt("Integer"), wt("String")}, {wh(ws("type"), wt("Integer"))}, {wu}, {ws("")}},
-	"Pcore::NotUndefType":  {{wt("Integer")}, {ws("a")}, {wi(1)}, {}, {wt("Integer"), wt("String")}, {wu}},
-	"Pcore::PatternType":   {{ws("a")}, {wmk("Regexp", ws("a"))}, {wt("Regexp[/a/]")}, {ws("(")}, {wi(1)}, {wa(ws("a"))}, {wa(wi(1))}, {}, {wh(ws("patterns"), wa(wt("Regexp[/a/]")))}, {wt("Pattern[/a/]")}, {wt("Regexp")}},
-	"Pcore::TypeType":      {{wt("Integer")}, {wi(1)}, {}, {wt("Integer"), wt("String")}, {wu}},
-	"Pcore::InitType":      {{wt("Integer")}, {wt("Integer"), wi(16)}, {wi(1)}, {}, {wt("Integer"), wa(wi(16))}, {wh(ws("type"), wt("Integer"), ws("init_args"), wa(wi(16)))}, {wu, wa()}, {wt("Nosuch")}, {wt("Optional[Integer]")}},
-	"Pcore::CallableType": {{wi(1), wi(1)}, {wt("Integer")}, {wt("Integer"), wt("Callable")}, {wa(wt("Integer")), wt("String")}, {wa(wa(wt("Integer")), wt("String"))}, {wi(1)}, {ws("a")}, {wt("Tuple[Integer]"), wt("Callable"), wt("String")}, {wt("Tuple[Integer]"), wi(1)},
+	"Pcore::StructElement": {{wt("Enum['a']"), wt("Integer")}, {wt("Optional['a']"), wt("Integer")}, {wt("Integer"), wt("Integer")}, {wt("Enum['a','b']"), wt("Integer")}, {wt("Optional[Integer]"), wt("Integer")}, {wt("NotUndef['a']"), wt("Integer")}, {wt("Enum['']"), wt("Integer")}, {ws("a"), wt("Integer")}, {wt("Optional[a]"), wt("Integer")}, {ws(""), wt("Integer")}, {wi(1), wt("Integer")}, {ws("a"), wi(1)}, {ws("a")}, {wh(ws("key_type"), wt("String[a]")), wh(ws("value_type"), wt("Integer"))}, {wt("String"), wt("Integer")}},
+	"Pcore::EnumType":      {{wa(ws("a"), ws("b")), wfalse}, {wa(ws("A")), wtrue}, {wa()}, {wa(ws(""))}, {ws("a"), ws("b")}, {wa(ws("a"), ws("b"))}, {wa(ws("a")), wtrue}, {ws("a"), wtrue}, {wi(1)}, {wa(wi(1))}, {wtrue}, {wh(ws("values"), wa(ws("a")))}, {wh(ws("values"), wa(ws("a")), ws("case_insensitive"), wtrue)}, {}, {wa(), wtrue}, {ws("a"), wi(1)}},
+	"Pcore::VariantType":   {{wa(wt("Integer"), wt("String"))}, {wa()}, {wa(wt("Integer"), wt("Integer"))}, {wa(wt("Variant[Integer,String]"), wt("Undef"))}, {wt("Integer"), wt("String")}, {wa(wt("Integer"))}, {wi(1)}, {}, {wt("Integer")}, {wa(wi(1))}, {wh(ws("types"), wa(wt("Integer")))}, {wa(wt("Integer")), wt("String")}},
+	"Pcore::OptionalType":  {{wu}, {wt("Optional[Integer]")}, {wt("Integer")}, {ws("a")}, {wi(1)}, {}, {wt("Integer"), wt("String")}, {wh(ws("type"), wt("Integer"))}, {wu}, {ws("")}},
+	"Pcore::NotUndefType":  {{wt("Optional[Integer]")}, {wt("Undef")}, {wt("Integer")}, {ws("a")}, {wi(1)}, {}, {wt("Integer"), wt("String")}, {wu}},
+	"Pcore::PatternType":   {{wa(wmk("Regexp", ws("a")))}, {wa(wmk("Regexp", ws("a")), wmk("Regexp", ws("b")))}, {wa()}, {ws("a")}, {wmk("Regexp", ws("a"))}, {wt("Regexp[/a/]")}, {ws("(")}, {wi(1)}, {wa(ws("a"))}, {wa(wi(1))}, {}, {wh(ws("patterns"), wa(wt("Regexp[/a/]")))}, {wt("Pattern[/a/]")}, {wt("Regexp")}},
+	"Pcore::TypeType":      {{wt("Type[Integer]")}, {wt("Integer")}, {wi(1)}, {}, {wt("Integer"), wt("String")}, {wu}},
+	"Pcore::Init":          {{wt("Integer[0,5]")}, {wt("String"), wa()}, {wu}, {wt("Integer")}, {wt("Integer"), wi(16)}, {wi(1)}, {}, {wt("Integer"), wa(wi(16))}, {wh(ws("type"), wt("Integer"), ws("init_args"), wa(wi(16)))}, {wu, wa()}, {wt("Nosuch")}, {wt("Optional[Integer]")}},
+	"Pcore::CallableType": {{wt("Tuple[Integer]")}, {wt("Tuple[Integer]"), wt("Callable"), wt("String")}, {wu, wu, wt("String")}, {wt("Tuple[Integer,String]"), wt("Callable[1,1]")}, {wu, wt("Callable")}, {}, {wi(1), wi(1)}, {wt("Integer")}, {wt("Integer"), wt("Callable")}, {wa(wt("Integer")), wt("String")}, {wa(wa(wt("Integer")), wt("String"))}, {wi(1)}, {ws("a")}, {wt("Tuple[Integer]"), wt("Callable"), wt("String")}, {wt("Tuple[Integer]"), wi(1)},
 		{wa(wi(1)), wi(2)}, {wa(), wt("String")}, {wi(0), wi(0)}, {wt("Integer"), wi(2), wi(1)}, {wt("Integer"), wt("Optional[Callable]")}, {wa(wt("Integer")), wi(1)}, {wh(ws("param_types"), wt("Tuple[Integer]"))}, {wt("Integer"), wt("Optional[Integer]")}},
-	"Pcore::CollectionType": {{wi(1)}, {wi(1), wi(2)}, {wt("Integer[1,2]")}, {wi(2), wi(1)}, {ws("a")}, {wd, wi(2)}, {wi(1), wi(2), wi(3)}, {wh(ws("size_type"), wt("Integer[1,2]"))}, {wi(1), ws("a")}},
-	"Pcore::SemVerType":     {{ws(">=1.0.0")}, {wmk("SemVerRange", ws(">=1.0.0"))}, {wi(1)}, {ws("nonsense")}, {wa(ws(">=1.0.0"))}, {}, {wh(ws("ranges"), wa(ws("1.x")))}},
-	"Pcore::TimespanType":   {{ws("0-00:00:01"), ws("0-00:00:10")}, {wi(1), wi(10)}, {wi(10), wi(1)}, {wmk("Timespan", wi(1))}, {ws("abc")}, {wd, wi(5)}, {wh(ws("from"), wi(1))}, {wi(1), wi(2), wi(3)}, {wf(1.5)}, {wh(wi(1), wi(2))}},
-	"Pcore::TimestampType":  {{ws("2019-01-01"), ws("2020-01-01")}, {wi(1), wi(10)}, {wi(10), wi(1)}, {ws("abc")}, {wd, wi(5)}, {wh(ws("from"), wi(1))}, {wi(1), wi(2), wi(3)}, {wf(1.5)}},
-	"Pcore::RegexpType":     {{ws("a")}, {wmk("Regexp", ws("a"))}, {ws("(")}, {wi(1)}, {}, {ws("a"), ws("b")}, {wh(ws("pattern"), ws("a"))}},
-	"Pcore::SensitiveType":  {{wt("String")}, {wi(1)}, {}, {wt("String"), wt("Integer")}},
-	"Pcore::IterableType":   {{wt("String")}, {wi(1)}, {}, {wt("String"), wt("Integer")}},
-	"Pcore::IteratorType":   {{wt("String")}, {wi(1)}, {}, {wt("String"), wt("Integer")}},
-	"Pcore::RuntimeType":    {{ws("go"), ws("int")}, {ws("go")}, {wi(1)}, {}, {ws("go"), wi(1)}, {ws("go"), ws("a"), ws("b")}, {ws("go"), wmk("Regexp", ws("a")), ws("b")}, {wh(ws("runtime"), ws("go"))}, {ws("a"), ws("b"), ws("c"), ws("d")}},
-	"Pcore::LikeType":       {{wt("Integer"), ws("a")}, {wt("Integer")}, {wi(1)}, {}, {wt("Integer"), wi(1)}, {wt("Struct[{a=>Integer}]"), ws("a")}, {wt("Integer"), ws("a.0")}},
-	"Pcore::TypeReference":  {{ws("Foo")}, {wi(1)}, {}, {ws("a"), ws("b")}, {ws("")}},
-	"Pcore::TypeAliasType":  {{ws("Foo"), wt("Integer")}, {ws("Foo")}, {wi(1)}, {}, {ws("Foo"), wi(1)}, {ws("Foo"), wu, wt("Integer")}, {wh(ws("name"), ws("Foo"), ws("resolved_type"), wt("Integer"))}},
-	"Pcore::ObjectType":     {{wh(ws("name"), ws("My::O"))}, {wh(ws("name"), ws("My::O2"), ws("attributes"), wh(ws("a"), wt("Integer")))}, {wi(1)}, {}, {wh(ws("attributes"), wi(1))}, {ws("My::O3"), wh()}, {wh(ws("nosuch"), wi(1))}},
-	"Pcore::BooleanType":    {{wtrue}, {wi(1)}, {}, {wtrue, wfalse}, {ws("true")}},
-	"Pcore::UriType":        {{ws("http://example.com")}, {wmk("URI", ws("http://example.com"))}, {wh(ws("scheme"), ws("http"))}, {wi(1)}, {}, {ws("::bad")}, {wh(wi(1), wi(2))}},
-	"Pcore::AnyType":        {{}, {wi(1)}},
-	"My::Pt":                {{wi(1)}, {wi(1), wi(2)}, {wi(1), wi(9)}, {wh(ws("x"), wi(1))}, {wh(ws("x"), wi(1), ws("y"), wi(3))}, {wh(ws("x"), wi(1), ws("y"), wi(9))}, {ws("a")}, {}, {wi(1), wi(2), wi(3)}, {wh(ws("y"), wi(1))}, {wh(ws("x"), wi(1), ws("z"), wi(1))}},
+	"Pcore::CollectionType":  {{wt("Integer[0,0]")}, {}, {wi(1)}, {wi(1), wi(2)}, {wt("Integer[1,2]")}, {wi(2), wi(1)}, {ws("a")}, {wd, wi(2)}, {wi(1), wi(2), wi(3)}, {wh(ws("size_type"), wt("Integer[1,2]"))}, {wi(1), ws("a")}},
+	"Pcore::SemVerType":      {{wa(ws(">=1.0.0"))}, {wa(wmk("SemVerRange", ws("1.x")), ws("2.x"))}, {wa()}, {wa(ws("nonsense"))}, {ws(">=1.0.0")}, {wmk("SemVerRange", ws(">=1.0.0"))}, {wi(1)}, {ws("nonsense")}, {wa(ws(">=1.0.0"))}, {}, {wh(ws("ranges"), wa(ws("1.x")))}},
+	"Pcore::TimespanType":    {{wmk("Timespan", wi(1)), wmk("Timespan", wi(10))}, {wmk("Timespan", wi(10)), wmk("Timespan", wi(1))}, {wu, wmk("Timespan", wi(10))}, {wmk("Timespan", wi(1))}, {}, {ws("0-00:00:01"), ws("0-00:00:10")}, {wi(1), wi(10)}, {wi(10), wi(1)}, {wmk("Timespan", wi(1))}, {ws("abc")}, {wd, wi(5)}, {wh(ws("from"), wi(1))}, {wi(1), wi(2), wi(3)}, {wf(1.5)}, {wh(wi(1), wi(2))}},
+	"Pcore::TimestampType":   {{wmk("Timestamp", wi(1)), wmk("Timestamp", wi(10))}, {wmk("Timestamp", wi(10)), wmk("Timestamp", wi(1))}, {wu, wmk("Timestamp", wi(10))}, {}, {ws("2019-01-01"), ws("2020-01-01")}, {wi(1), wi(10)}, {wi(10), wi(1)}, {ws("abc")}, {wd, wi(5)}, {wh(ws("from"), wi(1))}, {wi(1), wi(2), wi(3)}, {wf(1.5)}},
+	"Pcore::RegexpType":      {{wu}, {ws("")}, {ws("a")}, {wmk("Regexp", ws("a"))}, {ws("(")}, {wi(1)}, {}, {ws("a"), ws("b")}, {wh(ws("pattern"), ws("a"))}},
+	"Pcore::SensitiveType":   {{wt("String")}, {wi(1)}, {}, {wt("String"), wt("Integer")}},
+	"Pcore::IterableType":    {{wt("String")}, {wi(1)}, {}, {wt("String"), wt("Integer")}},
+	"Pcore::IteratorType":    {{wt("String")}, {wi(1)}, {}, {wt("String"), wt("Integer")}},
+	"Pcore::RuntimeType":     {{ws("go"), wa(wmk("Regexp", ws("a")), ws("b"))}, {wu, wu}, {ws("go"), wu}, {wu, ws("x")}, {ws("go"), ws("int")}, {ws("go")}, {wi(1)}, {}, {ws("go"), wi(1)}, {ws("go"), ws("a"), ws("b")}, {ws("go"), wmk("Regexp", ws("a")), ws("b")}, {wh(ws("runtime"), ws("go"))}, {ws("a"), ws("b"), ws("c"), ws("d")}},
+	"Pcore::Like":            {{wt("Integer"), ws("a")}, {wt("Integer")}, {wi(1)}, {}, {wt("Integer"), wi(1)}, {wt("Struct[{a=>Integer}]"), ws("a")}, {wt("Integer"), ws("a.0")}},
+	"Pcore::TypeReference":   {{ws("Foo")}, {wi(1)}, {}, {ws("a"), ws("b")}, {ws("")}},
+	"Pcore::TypeAlias":       {{ws("Foo"), wt("Integer")}, {ws("Foo")}, {wi(1)}, {}, {ws("Foo"), wi(1)}, {ws("Foo"), wu, wt("Integer")}, {wh(ws("name"), ws("Foo"), ws("resolved_type"), wt("Integer"))}},
+	"Pcore::ObjectType":      {{wh(ws("name"), ws("My::O"))}, {wh(ws("name"), ws("My::O2"), ws("attributes"), wh(ws("a"), wt("Integer")))}, {wi(1)}, {}, {wh(ws("attributes"), wi(1))}, {ws("My::O3"), wh()}, {wh(ws("nosuch"), wi(1))}},
+	"Pcore::BooleanType":     {{wtrue}, {wi(1)}, {}, {wtrue, wfalse}, {ws("true")}},
+	"Pcore::URIType":         {{wu}, {wh(ws("scheme"), ws("http"), ws("host"), ws("example.com"))}, {ws("http://example.com")}, {wmk("URI", ws("http://example.com"))}, {wh(ws("scheme"), ws("http"))}, {wi(1)}, {}, {ws("::bad")}, {wh(wi(1), wi(2))}},
+	"Pcore::AnyType":         {{}, {wi(1)}},
+	"Pcore::BinaryType":      {{}, {wi(1)}},
+	"Pcore::NumericType":     {{}, {wi(1)}},
+	"Pcore::DefaultType":     {{}, {wi(1)}},
+	"Pcore::UndefType":       {{}, {wi(1)}},
+	"Pcore::UnitType":        {{}, {wi(1)}},
+	"Pcore::ScalarType":      {{}, {wi(1)}},
+	"Pcore::SemVerRangeType": {{}, {wi(1)}},
+	"My::Pt":                 {{wi(1)}, {wi(1), wi(2)}, {wi(1), wi(9)}, {wh(ws("x"), wi(1))}, {wh(ws("x"), wi(1), ws("y"), wi(3))}, {wh(ws("x"), wi(1), ws("y"), wi(9))}, {ws("a")}, {}, {wi(1), wi(2), wi(3)}, {wh(ws("y"), wi(1))}, {wh(ws("x"), wi(1), ws("z"), wi(1))}},
 }
 
 var newPool = []string{
